@@ -67,7 +67,7 @@ _mc('C05', 'refsem',
     'Trusted: designated values and negation tables of mc/refsem.', level='exploration')
 _mc('C06', 'seqx+tabx',
     'explicit-state BFS over append/copy histories on real Branch objects with a recomputing reference; witness-step monitor over explored tableau executions',
-    'All histories of node additions and branch copies over a 12/16-node alphabet (out-of-order, wrapping and world-tagged constants, access nodes) to depth 4/5 with up to 2/3 live branches: the offered new '
+    'All histories of node additions and branch copies over a 12/16-node alphabet (out-of-order, wrapping and world-tagged constants, access nodes) to depth 4/5 from the empty branch and depth 3 from a seven-node branch, with up to 2 live branches: the offered new '
     'constant/world never occurs on the branch, constants/worlds equal the recomputed sets, copies are independent; every witness-introducing step of FO/modal proofs uses an item absent from the branch.',
     'Trusted: reference recomputation from node lists. Depth-capped (reported in evidence).')
 _mc('C09', 'tabx',
